@@ -147,12 +147,19 @@ fn check_strings(p: &Prepared, d: &Doc, cuts: &[usize]) -> (Option<String>, usiz
 }
 
 fn check_insert(enc: &'static Encoding, content: &str, html: bool) -> Option<String> {
+    check_insert_mode(enc, content, html, false).or_else(|| check_insert_mode(enc, content, html, true).map(|m| format!("streaming_before: {m}")))
+}
+
+/// `streaming`: the element-level insertion goes through `streaming_before` (the content is written
+/// to the streaming sink in pieces, one of them split inside a character).
+fn check_insert_mode(enc: &'static Encoding, content: &str, html: bool, streaming: bool) -> Option<String> {
     let p = Prepared::new(
         Cfg::with(vec![
             HSpec { log: false, ..HSpec::with_ops(HKind::Element, "t", vec![Op::Before(content.into(), html), Op::SetAttr("k".into(), content.into())]) },
             HSpec { log: false, ..HSpec::with_ops(HKind::DocEnd, "", vec![Op::Append(content.into(), html)]) },
         ])
-        .enc(enc.name()),
+        .enc(enc.name())
+        .streaming(streaming),
     )
     .ok()?;
     let rr = run(&p, &[b"<t>x</t>"], true);
@@ -466,7 +473,7 @@ pub fn run_check(ctx: &Ctx) -> i32 {
             }
         }
     }
-    ctx.level_done("(b) 7 contents x {html,text} x 36 encodings: inserted bytes == encoding_rs encode (NCRs for unmappable)");
+    ctx.level_done("(b) 7 contents x {html,text} x {plain, streaming} x 36 encodings: inserted bytes == encoding_rs encode (NCRs for unmappable)");
     // (c) meta charset
     let labels = ["windows-1251", "utf-8", "UTF-16", "shift_jis", "latin1", "bogus-label", "koi8-r", "utf-16be", "iso-2022-jp", "replacement"];
     for enc0 in [encoding_rs::UTF_8, encoding_rs::WINDOWS_1252, encoding_rs::KOI8_R] {
